@@ -58,6 +58,8 @@ def gen_op(rng: random.Random, kind: str) -> dict:
         if rng.random() < 0.06:
             keys[rng.randrange(nkeys)] = "@full"
         op = {"op": "REG", "keys": keys, "cls": rng.randrange(len(CLASSES))}
+        if inst and nkeys == 1 and rng.random() < 0.15:
+            op["prebuilt"] = True  # the decorator object was created earlier (outside the registry sandbox)
         if inst and rng.random() < 0.12:
             op["ctor_raises_at"] = rng.randrange(nkeys)
         return op
@@ -316,6 +318,15 @@ class Run:
         for ext in ("fmt", "alt", "yml", "yaml", "zzz", "DAT", "Fmt", "YML"):
             with open(os.path.join(self.sandbox, f"x.{ext}"), "w") as f:
                 f.write("x")
+        # decorators created while the *real* registry is current; applying them later must register in whatever
+        # registry is current then
+        import glotaran.plugin_system.data_io_registration as _dio
+        import glotaran.plugin_system.project_io_registration as _pio
+
+        self.prebuilt = {
+            "data_io": {k: _dio.register_data_io(k) for k in SHORTS[:4] + CASED},
+            "project_io": {k: _pio.register_project_io(k) for k in SHORTS[:4] + CASED},
+        }
         try:
             with monkeypatch_plugin_registry(
                 test_megacomplex={}, test_data_io={}, test_project_io={}, create_new_registry=True
@@ -416,7 +427,12 @@ class Run:
             before_instances = len(cls.instances) if inst else 0
             err = None
             try:
-                fe.register(keys, cls)
+                pre = self.prebuilt.get(kind, {}) if op.get("prebuilt") and len(keys) == 1 else {}
+                if keys[0] in pre:
+                    pre[keys[0]](cls)
+                    self.rec.probe("decorator_built_outside_sandbox")
+                else:
+                    fe.register(keys, cls)
             except Exception as e:  # noqa: BLE001
                 err = e
             ctor_fault["armed"] = False
